@@ -20,12 +20,14 @@ PROBES = {
             "return_data", "clock_backwards_seen", "initial_window", "gapped_fh",
             "no_leak_checked", "honest_recomputation_checked", "prefitted_forecaster",
             "missing_values_in_training_window", "fit_params_checked",
-            "x_consuming_forecaster"],
+            "x_consuming_forecaster", "missing_values_in_test_window"],
     "C08": ["tie_in_best_score", "greater_is_better", "nested_param_names", "multiplexer_grid",
             "randomized_search", "refit_false", "interleave_schedule", "pre_dispatch_window",
             "lockstep_history_checked", "sibling_schedule_checked", "list_of_grids",
             "random_state_instance", "tie_not_involving_first", "second_fit_other_grid",
-            "fit_horizon_remembered", "prediction_intervals_checked"],
+            "fit_horizon_remembered", "prediction_intervals_checked", "undefined_candidate_score",
+            "update_predict_single_checked", "update_predict_default_splitter",
+            "all_scores_undefined", "step_refused_by_both"],
 }
 FAULT_KINDS = {
     "C07": ["clock_jump_fwd", "clock_jump_back"],
@@ -74,6 +76,20 @@ def _skill(y_true, y_pred):
     return float(1.0 - np.mean(np.abs(yt - np.asarray(y_pred, float)) / (np.abs(yt) + 1.0)))
 
 
+def _corr(y_true, y_pred):
+    """Greater is better; undefined (NaN) for constant forecasts or a single point."""
+    a, b = np.asarray(y_true, float), np.asarray(y_pred, float)
+    if len(a) < 2 or np.std(a) == 0 or np.std(b) == 0:
+        return float("nan")
+    return float(np.corrcoef(a, b)[0, 1])
+
+
+def _nan_mae(y_true, y_pred):
+    """Tolerates missing observations in the test window."""
+    d = np.abs(np.asarray(y_true, float) - np.asarray(y_pred, float))
+    return float(np.nanmean(d)) if np.isfinite(d).any() else float("nan")
+
+
 def build_metric(name):
     from sktime.performance_metrics.forecasting import (
         MeanAbsolutePercentageError, MeanSquaredError, make_forecasting_scorer)
@@ -95,11 +111,15 @@ def build_metric(name):
         return make_forecasting_scorer(_neg_mae, name="neg_mae", greater_is_better=True)
     if name == "skill":
         return make_forecasting_scorer(_skill, name="skill", greater_is_better=True)
+    if name == "corr":
+        return make_forecasting_scorer(_corr, name="corr", greater_is_better=True)
+    if name == "nan_mae":
+        return make_forecasting_scorer(_nan_mae, name="nan_mae", greater_is_better=False)
     raise ValueError(name)
 
 
 ORDER_SENSITIVE = {"mape", "asym", "rel_true", "skill"}
-GREATER = {"neg_mae", "skill"}
+GREATER = {"neg_mae", "skill", "corr"}
 
 
 # ------------------------------------------------------------------ generation
@@ -142,13 +162,21 @@ def generate(prop, rng, tier):
         if cv.get("initial"):
             cv["initial"] = max(cv["initial"], cv["window"] + 1)
         n = max(n, (cv.get("initial") or cv["window"]) + max(cv["fh"]) + rng.randint(2, 9))
+        metric = rng.choice([None, "smape", "mape", "mse", "rmse", "asym", "rel_true",
+                             "neg_mae", "skill"])
+        nan_test = []
+        if spec["kind"] == "naive" and spec.get("strategy") in ("last", "mean") \
+                and spec.get("sp", 1) == 1 and not with_X and rng.random() < 0.35:
+            # missing observations at time points that some fold has to forecast
+            metric = "nan_mae"
+            first = (cv.get("initial") or cv["window"])
+            nan_test = sorted(set(rng.randint(first, n - 1) for _ in range(rng.randint(1, 2))))
         return {
             "spec": spec, "cv": cv, "n": n,
             "series": {"seed": rng.randint(0, 10 ** 6), "origin": rng.choice([0, 0, 3, 50, -20]),
                        "index": rng.choice(["range", "range", "int"]), "sp": rng.choice([2, 3, 4])},
             "strategy": strategy,
-            "metric": rng.choice([None, "smape", "mape", "mse", "rmse", "asym", "rel_true",
-                                  "neg_mae", "skill"]),
+            "metric": metric, "nan_test": nan_test,
             "with_X": with_X, "return_data": rng.random() < 0.4,
             "prefit": rng.random() < 0.25,
             "fit_params": rng.random() < 0.3,
@@ -211,7 +239,7 @@ def generate(prop, rng, tier):
         "series": {"seed": rng.randint(0, 10 ** 6), "origin": rng.choice([0, 0, 7, 100]),
                    "index": rng.choice(["range", "range", "int"]), "sp": rng.choice([2, 3, 4])},
         "metric": rng.choice([None, "smape", "mape", "mse", "asym", "neg_mae", "skill", "neg_mae",
-                              "skill"]),
+                              "skill", "corr" if len(cv["fh"]) >= 2 else "skill"]),
         "n_jobs": rng.choice([None, 1, 2, 2, 3, 4]),
         "pre_dispatch": rng.choice([None, 1, 2, "2*n_jobs", "n_jobs"]),
         "refit": rng.random() < 0.8,
@@ -225,7 +253,8 @@ def generate(prop, rng, tier):
         "sibling": {"n_jobs": rng.choice([None, 1, 2, 4]),
                     "mode": rng.choice(["fifo", "ooo", "interleave"]),
                     "seed": rng.randint(0, 10 ** 6)},
-        "history": [rng.choice(["predict", "update", "update_nop", "update_predict", "predict"])
+        "history": [rng.choice(["predict", "update", "update_nop", "update_predict", "predict",
+                                "ups", "ups_nop", "update_predict_nocv"])
                     for _ in range(rng.randint(1, 4))],
         "tail": rng.randint(4, 8),
         "clock": {"seed": rng.randint(0, 10 ** 6), "jump_every": rng.choice([0, 0, 4]),
@@ -257,6 +286,9 @@ def execute_c07(scen):
     if scen.get("nans") and scen["cv"]["window"] >= 4 and not scen.get("prefit"):
         y.iloc[[1, 2]] = np.nan   # inside the early training windows, never last, never tested
         res.probe("missing_values_in_training_window")
+    if scen.get("nan_test"):
+        y.iloc[[p_ for p_ in scen["nan_test"] if p_ < len(y)]] = np.nan
+        res.probe("missing_values_in_test_window")
     X = _make_X(y, s["seed"] + 1) if scen["with_X"] else None
     inner = peers.XIncrementForecaster() if scen["spec"]["kind"] == "xinc" else C.build(scen["spec"])
     spy = peers.SpyForecaster(inner, tag="F")
@@ -333,6 +365,7 @@ def execute_c07(scen):
         res.digest = short_hash([len(table)])
         return res
     metric_obj = metric if metric is not None else build_metric("smape")
+    nan_ok = scen["metric"] == "nan_mae"   # a fold whose forecasts/observations are all missing
     score_col = [c for c in table.columns if c.startswith("test_")]
     if len(score_col) != 1:
         v("score_column", "expected one test_<metric> column, found %s" % list(table.columns))
@@ -400,7 +433,7 @@ def execute_c07(scen):
         y_pred = pd.Series(c_pred["out"], index=y_test.index)
         exp_score = float(metric_obj(y_true=y_test, y_pred=y_pred))
         got = float(row[score_col])
-        if not np.isclose(got, exp_score, rtol=1e-9, atol=1e-12):
+        if not np.isclose(got, exp_score, rtol=1e-9, atol=1e-12, equal_nan=nan_ok):
             swapped = float(metric_obj(y_true=y_pred, y_pred=y_test))
             v("wrong_score", "fold %d: table score %.10g, metric(y_true, y_pred) = %.10g%s" % (
                 i, got, exp_score, " (it equals metric(y_pred, y_true))"
@@ -433,7 +466,7 @@ def execute_c07(scen):
                 exp_score = float(metric_obj(y_true=y_test, y_pred=p))
                 got = float(table.iloc[i][score_col])
                 res.probe("honest_recomputation_checked")
-                if not np.isclose(got, exp_score, rtol=1e-9, atol=1e-12):
+                if not np.isclose(got, exp_score, rtol=1e-9, atol=1e-12, equal_nan=nan_ok):
                     v("differs_from_honest_recomputation",
                       "fold %d: table score %.10g, a fresh clone fitted%s on the split gives %.10g"
                       % (i, got, "/updated" if scen["strategy"] == "update" else "", exp_score),
@@ -482,13 +515,30 @@ def _make_tuner(scen, n_jobs, pre_dispatch="same"):
                                          random_state=_search_rs(scen), **kw)
 
 
+def _all_undefined(scen, y):
+    from sklearn.base import clone
+    from sktime.forecasting.model_evaluation import evaluate
+    with peers.paused(), sched.scenario_schedule(sched.Scheduler("fifo", 0)):
+        for params in _candidates(scen):
+            try:
+                t = evaluate(clone(C.build(scen["base"])).set_params(**params), C.build_cv(scen["cv"]),
+                             y, strategy=scen["strategy"], scoring=build_metric(scen["metric"]))
+                col = [c for c in t.columns if c.startswith("test_")][0]
+                if not np.isnan(float(t[col].mean())):
+                    return False
+            except Exception:
+                return False
+    return True
+
+
 def execute_c08(scen):
     from sklearn.base import clone
     from sktime.exceptions import NotFittedError
     from sktime.forecasting.model_evaluation import evaluate
     res = RunResult()
     s = scen["series"]
-    y_all = C.make_series(s["seed"], scen["n"] + scen["tail"] + 4, s["origin"], s["index"], sp=s["sp"])
+    tail_len = scen["tail"] + 19 * scen["history"].count("update_predict_nocv")
+    y_all = C.make_series(s["seed"], scen["n"] + tail_len + 4, s["origin"], s["index"], sp=s["sp"])
     y = y_all.iloc[:scen["n"]]
     digest = hashlib.sha256()
     res.real.update(C.class_names(scen["base"]))
@@ -509,6 +559,10 @@ def execute_c08(scen):
             out = tuner.fit(y, fh=scen.get("fit_fh"))
     except Exception as e:  # noqa
         res.sched = sc.stats()
+        if scen["metric"] == "corr" and _all_undefined(scen, y):
+            res.probe("all_scores_undefined")   # nothing to select from: nothing is demanded
+            res.digest = "undefined"
+            return res
         v("fit_raised", "tuner.fit raised %s: %s on a valid configuration" % (
             type(e).__name__, str(e)[:200]), exc=type(e).__name__)
         res.digest = "raised"
@@ -574,7 +628,7 @@ def execute_c08(scen):
         if em is None:
             continue
         got = float(table.iloc[i][mean_col])
-        if not np.isclose(got, em, rtol=1e-9, atol=1e-12):
+        if not np.isclose(got, em, rtol=1e-9, atol=1e-12, equal_nan=True):
             v("row_differs_from_independent_evaluate",
               "candidate %d %s: cv_results_ mean %.10g, an independent evaluate() of a clone "
               "gives %.10g" % (i, params, got, em), mode=scen["sched"]["mode"],
@@ -584,7 +638,14 @@ def execute_c08(scen):
     digest.update(repr([round(float(x), 10) for x in table[mean_col]]).encode())
     # ---- best candidate in the metric's declared direction
     means = np.asarray(table[mean_col], dtype=float)
-    best = means.max() if greater else means.min()
+    if np.isnan(means).any():
+        # a candidate whose score is undefined is never "the best"; when no candidate has a
+        # defined score there is nothing to select and nothing is demanded
+        res.probe("undefined_candidate_score")
+        if np.isnan(means).all():
+            res.digest = digest.hexdigest()[:16]
+            return res
+    best = np.nanmax(means) if greater else np.nanmin(means)
     n_best = int(np.sum(np.isclose(means, best, rtol=1e-12, atol=1e-15)))
     if n_best > 1:
         res.probe("tie_in_best_score")
@@ -611,7 +672,8 @@ def execute_c08(scen):
         res.probe("sibling_schedule_checked")
         a = np.asarray(table[mean_col], float)
         b = np.asarray(sib.cv_results_[mean_col], float)
-        if not (a.shape == b.shape and np.array_equal(a, b)) or int(sib.best_index_) != bi and n_best == 1:
+        if not (a.shape == b.shape and np.array_equal(a, b, equal_nan=True)) or \
+                int(sib.best_index_) != bi and n_best == 1:
             v("depends_on_schedule", "cv_results_ differ between n_jobs=%s/%s and n_jobs=%s/%s" % (
                 scen["n_jobs"], scen["sched"]["mode"], scen["sibling"]["n_jobs"],
                 scen["sibling"]["mode"]))
@@ -649,7 +711,7 @@ def execute_c08(scen):
                         col = [c for c in t.columns if c.startswith("test_")][0]
                         em = float(t[col].mean())
                         got = float(t2.iloc[i2][mean_col])
-                        if not np.isclose(got, em, rtol=1e-9, atol=1e-12):
+                        if not np.isclose(got, em, rtol=1e-9, atol=1e-12, equal_nan=True):
                             v("second_fit_row_differs", "second fit (grid without %r), candidate %s: "
                               "cv_results_ mean %.10g, an independent evaluate() of a clone of the "
                               "configured forecaster gives %.10g" % (drop, params, got, em))
@@ -660,13 +722,17 @@ def execute_c08(scen):
                 tuner.set_params(param_grid=scen["grid"])
                 tuner.fit(y, fh=scen.get("fit_fh"))
         except Exception as e:  # noqa
+            if scen["metric"] == "corr" and _all_undefined(dict(scen, grid=grid2, search="grid"), y):
+                res.probe("all_scores_undefined")
+                res.digest = "undefined"
+                return res
             v("fit_raised", "second tuner.fit raised %s: %s" % (type(e).__name__, str(e)[:200]),
               exc=type(e).__name__)
             return res
     # ---- refit / no refit
     if out is not tuner:
         v("fit_not_self", "fit did not return the tuner")
-    tail = y_all.iloc[scen["n"]:scen["n"] + scen["tail"]]
+    tail = y_all.iloc[scen["n"]:scen["n"] + tail_len]
     if not scen["refit"]:
         res.probe("refit_false")
         for name, call in (("predict", lambda: tuner.predict([1, 2])),
@@ -730,35 +796,71 @@ def execute_c08(scen):
             v("refit_history_raised", "predict(return_pred_int=True) raised %s: %s" % (
                 type(e).__name__, str(e)[:150]), op="predict_interval", exc=type(e).__name__)
             return res
+    from sktime.forecasting.model_selection import SlidingWindowSplitter
     for k, op in enumerate(scen["history"]):
-        try:
-            if op == "predict":
-                a, b = tuner.predict(fh), direct.predict(fh)
-            elif op in ("update", "update_nop"):
-                if pos + 2 > len(tail):
-                    continue
-                batch = tail.iloc[pos:pos + 2]
-                pos += 2
-                up = op == "update"
-                tuner.update(batch, update_params=up)
-                direct.update(batch, update_params=up)
-                a, b = tuner.predict(fh), direct.predict(fh)
+        # every step is made on both objects; a step that the best forecaster itself refuses
+        # (e.g. its default splitter does not fit the batch, or its model cannot be refitted
+        # on what update_predict left behind) must be refused by the tuner in the same way
+        if op == "predict":
+            def step(o):
+                return o.predict(fh)
+        elif op in ("update", "update_nop", "ups", "ups_nop"):
+            if pos + 2 > len(tail):
+                continue
+            batch = tail.iloc[pos:pos + 2]
+            pos += 2
+            up = op in ("update", "ups")
+            if op.startswith("ups"):
+                # the one-step "take the new data and forecast" path
+                res.probe("update_predict_single_checked")
+
+                def step(o, batch=batch, up=up):
+                    return o.update_predict_single(batch, fh=fh, update_params=up)
             else:
-                if pos + 3 > len(tail):
-                    continue
-                batch = tail.iloc[pos:pos + 3]
-                from sktime.forecasting.model_selection import SlidingWindowSplitter
-                a = tuner.update_predict(batch, SlidingWindowSplitter(fh=[1], window_length=1),
-                                         update_params=False)
-                b = direct.update_predict(batch, SlidingWindowSplitter(fh=[1], window_length=1),
-                                          update_params=False)
-        except Exception as e:  # noqa
-            v("refit_history_raised", "%s #%d raised %s: %s" % (op, k, type(e).__name__, str(e)[:150]),
-              op=op, exc=type(e).__name__)
+                def step(o, batch=batch, up=up):
+                    o.update(batch, update_params=up)
+                    return o.predict(fh)
+        elif op == "update_predict_nocv":
+            # no splitter given: the best forecaster's own default, not the tuning splitter
+            if pos + 19 > len(tail):
+                continue
+            batch = tail.iloc[pos:pos + 19]
+            pos += 19
+            res.probe("update_predict_default_splitter")
+
+            def step(o, batch=batch):
+                o.predict(fh)
+                return o.update_predict(batch, update_params=False)
+        else:
+            if pos + 3 > len(tail):
+                continue
+            batch = tail.iloc[pos:pos + 3]
+
+            def step(o, batch=batch):
+                return o.update_predict(batch, SlidingWindowSplitter(fh=[1], window_length=1),
+                                        update_params=False)
+        outs_ = []
+        for obj_ in (tuner, direct):
+            try:
+                outs_.append(step(obj_))
+            except Exception as e_:  # noqa
+                outs_.append(e_)
+        a, b = outs_
+        if isinstance(a, Exception) or isinstance(b, Exception):
+            if type(a) is not type(b):
+                v("tuner_differs_from_best_forecaster", "%s #%d: the tuner %s, a forecaster built "
+                  "with best_params_ %s" % (op, k, *[("raises %s: %s" % (type(x).__name__, str(x)[:90]))
+                                                    if isinstance(x, Exception) else "returns a result"
+                                                    for x in (a, b)]), op=op, raised=True)
+            res.probe("step_refused_by_both")
             break
         res.probe("lockstep_history_checked")
-        ok = C.same_series(a, b) if isinstance(a, pd.Series) else \
-            np.allclose(np.asarray(a, float), np.asarray(b, float), equal_nan=True)
+        if isinstance(a, pd.Series) and isinstance(b, pd.Series):
+            ok = C.same_series(a, b)
+        else:
+            aa, bb = np.asarray(a, float), np.asarray(b, float)
+            ok = type(a) is type(b) and aa.shape == bb.shape and np.allclose(aa, bb, equal_nan=True) \
+                and (not hasattr(a, "index") or C.same_index(a.index, b.index))
         if not ok:
             v("tuner_differs_from_best_forecaster", "%s #%d: tuner gives %s, a forecaster built "
               "with best_params_ gives %s" % (op, k, C.fmt(a), C.fmt(b)), op=op)
